@@ -40,6 +40,15 @@ pub struct Inst {
     pub par: AzksParallelismConfig,
 }
 
+pub enum AnyRo {
+    W(akd::directory::ReadOnlyDirectory<Wv1, Db, HardCodedAkdVRF>),
+    E(akd::directory::ReadOnlyDirectory<Exp, Db, HardCodedAkdVRF>),
+}
+
+pub struct Reader {
+    pub dir: AnyRo,
+}
+
 pub struct L1State {
     pub rt: tokio::runtime::Runtime,
     pub inst: Option<Inst>,
@@ -52,6 +61,8 @@ pub struct L1State {
     pub fx_roots: Vec<[u8; 32]>,
     /// C14: probability (per mille) of dropping and re-creating the directory object before an op
     pub perm_roots: Vec<[u8; 32]>,
+    /// lagging read-only instances (C13): own cached storage manager over the shared database
+    pub readers: BTreeMap<u64, Reader>,
     pub restart_permille: u64,
     /// C14: serve read operations through `ReadOnlyDirectory`
     pub readonly: bool,
@@ -74,6 +85,7 @@ impl Default for L1State {
             fx: None,
             fx_roots: vec![],
             perm_roots: vec![],
+            readers: BTreeMap::new(),
             restart_permille: 0,
             readonly: false,
             rng: crate::rng::Rng::new(7),
@@ -983,6 +995,7 @@ fn step_inner(ex: &mut Exec, st: &mut L1State, op: &str, toks: &[&str]) -> Optio
     match op {
         "reset" if toks.len() == 2 => {
             st.fx = None;
+            st.readers.clear();
             let mut inst = st.rt.block_on(Inst::new(toks[1], &st.cache_mode, st.parallelism))?;
             inst.readonly = st.readonly;
             st.inst = Some(inst);
@@ -1205,6 +1218,116 @@ fn step_inner(ex: &mut Exec, st: &mut L1State, op: &str, toks: &[&str]) -> Optio
                     ex.stats.bump(op, "err");
                     Some("err".into())
                 }
+            }
+        }
+        "lag.new" if toks.len() == 2 => {
+            let inst = st.inst.as_ref()?;
+            let k: u64 = toks[1].parse().ok()?;
+            // item lifetime 2 ms: node records expire between operations, the epoch record never does
+            let mgr = StorageManager::new(inst.db.clone(), Some(std::time::Duration::from_millis(2)), None, Some(std::time::Duration::from_millis(2)));
+            let vrf = HardCodedAkdVRF {};
+            let dir = match inst.cfg.as_str() {
+                "wv1" => AnyRo::W(st.rt.block_on(akd::directory::ReadOnlyDirectory::<Wv1, _, _>::new(mgr, vrf, st.parallelism)).ok()?),
+                _ => AnyRo::E(st.rt.block_on(akd::directory::ReadOnlyDirectory::<Exp, _, _>::new(mgr, vrf, st.parallelism)).ok()?),
+            };
+            let eh = match &dir {
+                AnyRo::W(d) => st.rt.block_on(d.get_epoch_hash()),
+                AnyRo::E(d) => st.rt.block_on(d.get_epoch_hash()),
+            };
+            st.readers.insert(k, Reader { dir });
+            Some(match eh {
+                Ok(eh) => format!("{} {}", eh.0, hex32(&eh.1)),
+                Err(_) => "err".into(),
+            })
+        }
+        "lag.epochhash" | "lag.lookup" | "lag.history" | "lag.audit" if toks.len() >= 2 => {
+            let inst = st.inst.as_ref()?;
+            let k: u64 = toks[1].parse().ok()?;
+            let reader = st.readers.get(&k)?;
+            std::thread::sleep(std::time::Duration::from_millis(5));
+            // oracle (C13): an answer names an (epoch, root hash) pair the directory really published …
+            let check_pair = |ex: &mut Exec, e: u64, h: &[u8; 32]| {
+                if inst.roots.get(&e) != Some(h) {
+                    ex.fail_tag("C13", "unpublished-epoch-hash", format!("{:?} answered with epoch {} and root hash {}, which the directory never published for that epoch (it published {:?})", toks, e, hex::encode(h), inst.roots.get(&e).map(hex::encode)));
+                }
+            };
+            match op {
+                "lag.epochhash" => {
+                    let r = match &reader.dir {
+                        AnyRo::W(d) => st.rt.block_on(d.get_epoch_hash()),
+                        AnyRo::E(d) => st.rt.block_on(d.get_epoch_hash()),
+                    };
+                    Some(match r {
+                        Ok(eh) => {
+                            check_pair(ex, eh.0, &eh.1);
+                            format!("{} {}", eh.0, hex32(&eh.1))
+                        }
+                        Err(_) => "err".into(),
+                    })
+                }
+                "lag.lookup" if toks.len() == 3 => {
+                    let u = AkdLabel(parse_hex(toks[2])?);
+                    let r = match &reader.dir {
+                        AnyRo::W(d) => st.rt.block_on(d.lookup(u.clone())),
+                        AnyRo::E(d) => st.rt.block_on(d.lookup(u.clone())),
+                    };
+                    Some(match r {
+                        Err(_) => "err".into(),
+                        Ok((p, eh)) => {
+                            check_pair(ex, eh.0, &eh.1);
+                            match inst.verify_lookup(eh.1, eh.0, &u, p) {
+                                Ok(res) => format!("{} {} ok {}", eh.0, hex32(&eh.1), show_result(&res)),
+                                Err(e) => {
+                                    // … and the proof verifies against that pair
+                                    ex.fail_tag("C13", "answer-does-not-verify", format!("{:?}: the lookup proof returned with epoch {} does not verify against the returned root hash: {e}", toks, eh.0));
+                                    format!("{} {} rej", eh.0, hex32(&eh.1))
+                                }
+                            }
+                        }
+                    })
+                }
+                "lag.history" if toks.len() == 4 => {
+                    let u = AkdLabel(parse_hex(toks[2])?);
+                    let hp = parse_params(toks[3])?;
+                    let r = match &reader.dir {
+                        AnyRo::W(d) => st.rt.block_on(d.key_history(&u, hp)),
+                        AnyRo::E(d) => st.rt.block_on(d.key_history(&u, hp)),
+                    };
+                    Some(match r {
+                        Err(_) => "err".into(),
+                        Ok((p, eh)) => {
+                            check_pair(ex, eh.0, &eh.1);
+                            match inst.verify_history(eh.1, eh.0, &u, p, HistoryVerificationParams::Default { history_params: hp }) {
+                                Ok(rs) => format!("{} {} ok {}", eh.0, hex32(&eh.1), rs.iter().map(show_result).collect::<Vec<_>>().join(" ")),
+                                Err(e) => {
+                                    ex.fail_tag("C13", "answer-does-not-verify", format!("{:?}: the history proof returned with epoch {} does not verify against the returned root hash: {e}", toks, eh.0));
+                                    format!("{} {} rej", eh.0, hex32(&eh.1))
+                                }
+                            }
+                        }
+                    })
+                }
+                "lag.audit" if toks.len() == 4 => {
+                    let (s, e): (u64, u64) = (toks[2].parse().ok()?, toks[3].parse().ok()?);
+                    let r = match &reader.dir {
+                        AnyRo::W(d) => st.rt.block_on(d.audit(s, e)),
+                        AnyRo::E(d) => st.rt.block_on(d.audit(s, e)),
+                    };
+                    Some(match r {
+                        Err(_) => "err".into(),
+                        Ok(p) => {
+                            let hashes: Vec<[u8; 32]> = (s..=e).filter_map(|i| inst.roots.get(&i).cloned()).collect();
+                            match st.rt.block_on(inst.verify_audit(hashes, p)) {
+                                Ok(()) => "ok ".into(),
+                                Err(err) => {
+                                    ex.fail_tag("C13", "answer-does-not-verify", format!("{:?}: the audit proof does not verify against the published root hashes: {err}", toks));
+                                    "rej".into()
+                                }
+                            }
+                        }
+                    })
+                }
+                _ => None,
             }
         }
         "perm.group" => {
